@@ -62,7 +62,7 @@ type WorkerOut struct {
 	Worker     int                 `json:"worker"`
 	Cases      int                 `json:"cases"`
 	Counters   map[string]int64    `json:"counters"`
-	Sets       map[string][]uint64 `json:"sets"`
+	Sets       map[string]dsetJSON `json:"sets"`
 	Samples    []interface{}       `json:"samples"`
 	Known      map[string]KnownHit `json:"known"`
 	Violation  *ViolationReport    `json:"violation,omitempty"`
@@ -190,7 +190,7 @@ func worker(args []string) int {
 	}
 	agg := newCtx(p.ID, *tier, nil, false)
 	agg.known = map[string]*KnownHit{}
-	out := WorkerOut{Worker: *from, Counters: map[string]int64{}, Sets: map[string][]uint64{}, Known: map[string]KnownHit{}}
+	out := WorkerOut{Worker: *from, Counters: map[string]int64{}, Sets: map[string]dsetJSON{}, Known: map[string]KnownHit{}}
 	w := bufio.NewWriter(os.Stdout)
 	defer w.Flush()
 
@@ -218,12 +218,7 @@ func worker(args []string) int {
 	}
 	out.Counters = agg.C
 	for k, s := range agg.sets {
-		l := make([]uint64, 0, len(s))
-		for h := range s {
-			l = append(l, h)
-		}
-		sort.Slice(l, func(i, j int) bool { return l[i] < l[j] })
-		out.Sets[k] = l
+		out.Sets[k] = s.toJSON()
 	}
 	for k, h := range agg.known {
 		out.Known[k] = *h
@@ -389,7 +384,7 @@ func coordinator(args []string) int {
 
 	// merge
 	counters := map[string]int64{}
-	sets := map[string]map[uint64]struct{}{}
+	sets := map[string]*DSet{}
 	var samples []interface{}
 	knownHits := map[string]KnownHit{}
 	var viol *ViolationReport
@@ -409,11 +404,9 @@ func coordinator(args []string) int {
 		}
 		for k, l := range o.Sets {
 			if sets[k] == nil {
-				sets[k] = map[uint64]struct{}{}
+				sets[k] = NewDSet()
 			}
-			for _, h := range l {
-				sets[k][h] = struct{}{}
-			}
+			sets[k].Merge(dsetFromJSON(l))
 		}
 		if len(samples) < 4 {
 			samples = append(samples, o.Samples...)
@@ -450,21 +443,27 @@ func coordinator(args []string) int {
 		nviol = 1
 		os.MkdirAll(*rdir, 0o755)
 		replayPath = filepath.Join(*rdir, fmt.Sprintf("%s-%d-%d.json", p.ID, seed, viol.Run))
-		b, _ := json.MarshalIndent(viol, "", " ")
-		os.WriteFile(replayPath, b, 0o644)
+		os.WriteFile(replayPath, prettyJSON(viol), 0o644)
 	}
 	writeEvidence(*evid, p, *tier, seed, cases, counters, sets, samples, knownHits, det, virt, wall, nviol, *isum, viol)
 
 	if viol != nil {
 		fmt.Printf("violation: %s\n", viol.Violation.String())
-		if rb, err := json.MarshalIndent(viol.Rendered, "", " "); err == nil {
-			fmt.Println(clip(string(rb), 6000))
-		}
+		fmt.Println(clip(string(prettyJSON(viol.Rendered)), 6000))
 		fmt.Printf("VIOLATION property=%s replay=%s\n", p.ID, replayPath)
 		return 1
 	}
-	fmt.Printf("verif: property=%s held on %d cases (%d evaluations, %d distinct non-trivial) in %.1fs\n", p.ID, cases, counters["evaluations"], len(sets["nontrivial"]), wall)
+	fmt.Printf("verif: property=%s held on %d cases (%d evaluations, %d distinct non-trivial) in %.1fs\n", p.ID, cases, counters["evaluations"], dcount(sets["nontrivial"]), wall)
 	return 0
+}
+
+func prettyJSON(v interface{}) []byte {
+	var b bytes.Buffer
+	e := json.NewEncoder(&b)
+	e.SetEscapeHTML(false)
+	e.SetIndent("", " ")
+	e.Encode(v)
+	return bytes.TrimRight(b.Bytes(), "\n")
 }
 
 func nonBegin(s string) string {
@@ -534,8 +533,7 @@ func replay(args []string) int {
 		t = ReplayTape(rep.Tape)
 	}
 	res, c := runTape(p, rep.Tier, t, true, nil)
-	rb, _ := json.MarshalIndent(c.R, "", " ")
-	fmt.Println(string(rb))
+	fmt.Println(string(prettyJSON(c.R)))
 	for _, e := range c.evList {
 		fmt.Println("  event:", e)
 	}
